@@ -62,6 +62,7 @@ def gen_graph(src):
             nodes.append({"name": name, "kind": "prop", "deps": deps, "cache": src.chance(3, 4), "overridable": src.chance(1, 2),
                           "weights": [1 + src.choice(3) for _ in range(len(avail) if deps == "*" else len(deps))]})
     return {"bases": bases, "nodes": nodes, "subclass": src.pick([False, False, True, "parent_holds_all"]), "post_init_read": [m["name"] for m in nodes if m["kind"] == "prop" and src.chance(1, 4)],
+            "post_init_write": src.pick([None, None, "x", "y"]),  # a dependency is (also) written inside __post_init__, after the reads
             "eager": src.chance(1, 2)}
 
 
@@ -138,31 +139,34 @@ def build(g, counters):
             derived_ns[node["name"]] = spec_property(getter(node), cache=node["cache"], overridable=node["overridable"],
                                                      invalidated_by="*" if node["deps"] == "*" else list(node["deps"]))
     reads = list(g["post_init_read"])
+    write = g.get("post_init_write")
 
     def __post_init__(self):
         for n in reads:
             getattr(self, n)
+        if write:
+            setattr(self, write, getattr(self, write) + 1)
 
     if g["subclass"] == "parent_holds_all":
         # everything (bases and dependants) is declared on the parent; the instance class is an (otherwise empty) spec subclass
         ns = dict(base_ns, __module__="vf.generated")
         ns["__annotations__"] = dict(base_ns["__annotations__"], **derived_ns["__annotations__"])
         ns.update({k: v for k, v in derived_ns.items() if k != "__annotations__"})
-        if reads:
+        if reads or write:
             ns["__post_init__"] = __post_init__
         P = spec_class(bootstrap=g["eager"])(type("P", (), ns))
         M = spec_class(bootstrap=g["eager"])(type("M", (P,), {"__module__": "vf.generated", "__annotations__": {"extra": int}, "extra": 0}))
     elif g["subclass"]:
         P = spec_class(bootstrap=g["eager"])(type("P", (), dict(base_ns, __module__="vf.generated")))
         ns = dict(derived_ns, __module__="vf.generated")
-        if reads:
+        if reads or write:
             ns["__post_init__"] = __post_init__
         M = spec_class(bootstrap=g["eager"])(type("M", (P,), ns))
     else:
         ns = dict(base_ns, __module__="vf.generated")
         ns["__annotations__"] = dict(base_ns["__annotations__"], **derived_ns["__annotations__"])
         ns.update({k: v for k, v in derived_ns.items() if k != "__annotations__"})
-        if reads:
+        if reads or write:
             ns["__post_init__"] = __post_init__
         M = spec_class(bootstrap=g["eager"])(type("M", (), ns))
     return M
@@ -239,6 +243,9 @@ def run_case(ctx, case):
     model = Model(g)
     for n in g["post_init_read"]:
         model.read(n)
+    if g.get("post_init_write"):
+        model.base[g["post_init_write"]] += 1
+        model.changed(g["post_init_write"])
     filled_then_changed = False
     pending = set()  # derived nodes with a fill/override whose dependency has changed since, awaiting a read
     nontrivial = False
